@@ -1063,4 +1063,319 @@ theorem steal_spec (w : World) (dest src : Cq) (len : Nat) :
     · rw [Nat.min_eq_left hle]
     · rw [Nat.min_eq_right (by omega), List.drop_of_length_le (by omega), List.drop_of_length_le (by omega)]
 
+/-! ## read -/
+
+theorem openChunk_same (w : World) (fid len : Nat) (t : Bool) : SameFiles w (openChunk w fid len t).1 := by
+  unfold openChunk
+  split
+  · exact SameFiles.refl w
+  · dsimp only
+    split <;> exact openFd_same w fid
+
+theorem take_min_length (l : Bytes) (k : Nat) : l.take (min l.length k) = l.take k := by
+  by_cases h : l.length ≤ k
+  · rw [Nat.min_eq_left h, List.take_of_length_le (Nat.le_refl _), List.take_of_length_le h]
+  · rw [Nat.min_eq_right (by omega)]
+
+theorem peekChunk_spec {w : World} {n : Nat} {acc : Bytes} {c : Chunk} {w1 : World} {c1 : Chunk}
+    {acc1 : Bytes} {ok : Bool} (h : peekChunk w n acc c = (w1, c1, acc1, ok)) :
+    SameFiles w w1 ∧
+      (c.Valid w → c1.Valid w ∧ c1.rem = c.rem ∧ c1.content w = c.content w ∧
+        (ok = true → acc1 = acc ++ (c.content w).take (n - acc.length))) := by
+  cases c with
+  | mem d off cap =>
+    simp only [peekChunk, Prod.mk.injEq] at h
+    obtain ⟨rfl, rfl, rfl, rfl⟩ := h
+    refine ⟨SameFiles.refl w, fun hv => ⟨hv, rfl, rfl, fun _ => ?_⟩⟩
+    simp only [Chunk.content]
+    split
+    · rename_i h0
+      have : d.drop off = [] := List.eq_nil_of_length_eq_zero (by simpa using h0)
+      simp [this]
+    · have := take_min_length (d.drop off) (n - acc.length)
+      simp only [List.length_drop] at this
+      rw [this]
+  | file fid off len t fd =>
+    simp only [peekChunk] at h
+    have hopen : SameFiles w (if fd.isOpen = true then (w, fd, true) else openChunk w fid len t).1 := by
+      split
+      · exact SameFiles.refl w
+      · exact openChunk_same w fid len t
+    split at h
+    · rename_i w2 fd2 heq
+      rw [heq] at hopen
+      simp only [Prod.mk.injEq] at h
+      obtain ⟨rfl, rfl, rfl, rfl⟩ := h
+      exact ⟨hopen, fun hv => ⟨hv, rfl, rfl, fun h => by cases h⟩⟩
+    · rename_i w2 fd2 heq
+      rw [heq] at hopen
+      split at h
+      · rename_i h0
+        simp only [Prod.mk.injEq] at h
+        obtain ⟨rfl, rfl, rfl, rfl⟩ := h
+        exact ⟨hopen, fun hv => ⟨hv, rfl, rfl, fun _ => by simp [Chunk.content, h0]⟩⟩
+      · split at h
+        · simp only [Prod.mk.injEq] at h
+          obtain ⟨rfl, rfl, rfl, rfl⟩ := h
+          exact ⟨hopen, fun hv => ⟨hv, rfl, rfl, fun h => by cases h⟩⟩
+        · simp only [Prod.mk.injEq] at h
+          obtain ⟨rfl, rfl, rfl, rfl⟩ := h
+          have hopen' : SameFiles w w2 := hopen
+          refine ⟨hopen, fun hv => ⟨hv, rfl, rfl, fun _ => ?_⟩⟩
+          simp only [Chunk.content, hopen'.content, List.take_take]
+          congr 2
+          exact Nat.min_comm _ _
+
+theorem peekLoop_spec (w : World) (n : Nat) (acc : Bytes) (cs : List Chunk) :
+    SameFiles w (peekLoop w n acc cs).1 ∧
+      (ValidAll w cs → ValidAll w (peekLoop w n acc cs).2.1 ∧
+        remSum (peekLoop w n acc cs).2.1 = remSum cs ∧
+        absChunks w (peekLoop w n acc cs).2.1 = absChunks w cs ∧
+        ((peekLoop w n acc cs).2.2.2 = true → acc.length ≤ n →
+          (peekLoop w n acc cs).2.2.1 = acc ++ (absChunks w cs).take (n - acc.length))) := by
+  fun_induction peekLoop w n acc cs with
+  | case1 w acc => exact ⟨SameFiles.refl w, fun _ => ⟨ValidAll.nil w, rfl, rfl, fun _ _ => by simp⟩⟩
+  | case2 w acc c rest w1 c' acc1 heq =>
+    obtain ⟨hs, hc⟩ := peekChunk_spec heq
+    refine ⟨hs, fun hv => ?_⟩
+    obtain ⟨c1, c2, c3, _⟩ := hc hv.head
+    exact ⟨ValidAll.cons c1 hv.tail, by simp [c2], by simp [c3], fun h => by cases h⟩
+  | case3 w acc c rest w1 c' acc1 heq hn =>
+    obtain ⟨hs, hc⟩ := peekChunk_spec heq
+    refine ⟨hs, fun hv => ?_⟩
+    obtain ⟨c1, c2, c3, c4⟩ := hc hv.head
+    refine ⟨ValidAll.cons c1 hv.tail, by simp [c2], by simp [c3], fun _ hle => ?_⟩
+    have e := c4 rfl
+    rw [e, absChunks_cons, List.take_append]
+    have : n - acc.length - (c.content w).length = 0 := by
+      rw [e, List.length_append, List.length_take] at hn
+      omega
+    simp [this]
+  | case4 w acc c rest w1 c' acc1 heq hn w2 rest2 acc2 ok heq2 ih =>
+    obtain ⟨hs, hc⟩ := peekChunk_spec heq
+    rw [heq2] at ih
+    obtain ⟨hs2, hi⟩ := ih
+    refine ⟨hs.trans hs2, fun hv => ?_⟩
+    obtain ⟨c1, c2, c3, c4⟩ := hc hv.head
+    obtain ⟨i1, i2, i3, i4⟩ := hi (hv.tail.mono hs.grows)
+    have g1 : Grows w1 w := ⟨by rw [hs.nfiles]; exact Nat.le_refl _, fun fid => by rw [hs.sz]; exact Nat.le_refl _⟩
+    simp only [absChunks_same hs] at i3 i4
+    simp only at i1 i2 i3 i4 hn ⊢
+    refine ⟨ValidAll.cons c1 (i1.mono g1), by simp [c2, i2], by simp [c3, i3], fun hok hle => ?_⟩
+    have e := c4 rfl
+    have hlen : acc1.length ≤ n := by
+      rw [e, List.length_append, List.length_take]; omega
+    rw [i4 hok hlen, e, absChunks_cons, List.take_append, List.append_assoc]
+    have hlt : (c.content w).length < n - acc.length := by
+      rw [e, List.length_append, List.length_take] at hn
+      omega
+    rw [List.take_of_length_le (l := c.content w) (by omega)]
+    congr 3
+    simp only [List.length_append]
+    omega
+
+theorem peekData_spec (w : World) (q : Cq) (n : Nat) :
+    SameFiles w (peekData w q n).1 ∧
+      (QV w q → QV (peekData w q n).1 (peekData w q n).2.1 ∧
+        (peekData w q n).2.1.abs w = q.abs w ∧
+        ((peekData w q n).2.2.2 = true → (peekData w q n).2.2.1 = (q.abs w).take n)) := by
+  unfold peekData
+  split
+  rename_i w1 cs acc ok heq
+  have h := peekLoop_spec w n [] q.chunks
+  rw [heq] at h
+  obtain ⟨hs, hi⟩ := h
+  refine ⟨hs, fun hq => ?_⟩
+  obtain ⟨i1, i2, i3, i4⟩ := hi hq.valid
+  simp only at i1 i2 i3 i4 ⊢
+  exact ⟨⟨i1.mono hs.grows, by simp only [i2]; exact hq.len⟩, i3,
+    fun hok => by simpa [Cq.abs] using i4 hok (Nat.zero_le _)⟩
+
+theorem readData_spec {w : World} {q : Cq} {n : Nat} {w' : World} {q' : Cq} {r : Option Bytes}
+    (h : readData w q n = (w', q', r)) :
+    SameFiles w w' ∧
+      (QV w q → QV w' q' ∧
+        (∀ d, r = some d → d = (q.abs w).take n ∧ d.length = n ∧ q'.abs w = (q.abs w).drop n) ∧
+        (r = none → q'.abs w = q.abs w)) := by
+  unfold readData at h
+  split at h
+  rename_i w1 q1 acc ok heq
+  have hp := peekData_spec w q n
+  rw [heq] at hp
+  obtain ⟨hs, hi⟩ := hp
+  split at h
+  · simp only [Prod.mk.injEq] at h
+    obtain ⟨rfl, rfl, rfl⟩ := h
+    refine ⟨hs, fun hq => ?_⟩
+    obtain ⟨i1, i2, _⟩ := hi hq
+    exact ⟨i1, ⟨fun d hd => by cases hd, fun _ => i2⟩⟩
+  · rename_i hc
+    simp only [Prod.mk.injEq] at h
+    obtain ⟨rfl, rfl, rfl⟩ := h
+    have hm := markWritten_spec w1 q1 n
+    refine ⟨hs.trans hm.1, fun hq => ?_⟩
+    obtain ⟨i1, i2, i3⟩ := hi hq
+    have hok : ok = true := by
+      cases ok
+      · simp at hc
+      · rfl
+    have hacc : acc.length = n := by
+      by_cases hx : acc.length = n
+      · exact hx
+      · simp [hx] at hc
+    have e := i3 hok
+    simp only at e i1 i2
+    have hs' : SameFiles w w1 := hs
+    have hn : n ≤ remSum q1.chunks := by
+      have h1 := absChunks_length i1.valid
+      rw [absChunks_same hs'] at h1
+      simp only [Cq.abs] at i2 e
+      have : ((absChunks w q.chunks).take n).length = n := by rw [← e]; exact hacc
+      rw [List.length_take] at this
+      rw [← h1, i2]; omega
+    refine ⟨hm.2 i1 hn, ⟨fun d hd => ?_, fun hnone => by cases hnone⟩⟩
+    cases hd
+    refine ⟨e, hacc, ?_⟩
+    have := markWritten_abs w1 q1 n i1
+    simp only [Cq.abs] at this i2 ⊢
+    rw [absChunks_same hm.1, absChunks_same hs'] at this
+    rw [this, absChunks_same hs', i2]
+
+theorem releaseAll_nil_qv (w : World) (q : Cq) :
+    QV w { q with chunks := [], bytesIn := 0, bytesOut := 0, tdIdx := 0 } :=
+  ⟨ValidAll.nil w, by simp⟩
+
+theorem readSquash_spec {w : World} {q : Cq} {w' : World} {q' : Cq} {ok : Bool}
+    (h : readSquash w q = (w', q', ok)) :
+    SameFiles w w' ∧ (QV w q → QV w' q' ∧ q'.abs w = q.abs w) := by
+  unfold readSquash at h
+  split at h
+  · simp only [Prod.mk.injEq] at h
+    obtain ⟨rfl, rfl, rfl⟩ := h
+    exact ⟨SameFiles.refl w, fun hq => ⟨hq, rfl⟩⟩
+  · split at h
+    rename_i w1 cap ha
+    have hs1 := acquire_same w (q.length.toNat + 1)
+    rw [ha] at hs1
+    have hp := peekData_spec w1 q q.length.toNat
+    split at h
+    · rename_i w2 q2 acc heq
+      rw [heq] at hp
+      obtain ⟨hs2, hi⟩ := hp
+      simp only [Prod.mk.injEq] at h
+      obtain ⟨rfl, rfl, rfl⟩ := h
+      have hr := release_same w2 (.mem [] 0 cap)
+      refine ⟨(hs1.trans hs2).trans hr, fun hq => ?_⟩
+      obtain ⟨i1, i2, _⟩ := hi (hq.mono hs1.grows)
+      refine ⟨i1.mono hr.grows, ?_⟩
+      simp only [Cq.abs] at i2 ⊢
+      rw [← absChunks_same hs1, i2, absChunks_same hs1]
+    · rename_i w2 q2 acc heq
+      rw [heq] at hp
+      obtain ⟨hs2, hi⟩ := hp
+      simp only [Prod.mk.injEq] at h
+      obtain ⟨rfl, rfl, rfl⟩ := h
+      have hr := releaseAll_same w2 q2.chunks
+      refine ⟨(hs1.trans hs2).trans hr, fun hq => ?_⟩
+      obtain ⟨i1, i2, i3⟩ := hi (hq.mono hs1.grows)
+      have e := i3 rfl
+      simp only at e i1 i2
+      have hl := absChunks_length hq.valid
+      have hlen := hq.len
+      have hfull : acc = q.abs w := by
+        rw [e]
+        simp only [Cq.abs, absChunks_same hs1]
+        refine List.take_of_length_le ?_
+        simp only [Cq.length]
+        omega
+      refine ⟨⟨ValidAll.single (mem_chunk_valid ..), ?_⟩, ?_⟩
+      · have hlen2 := i1.len
+        simp only [remSum_cons, remSum_nil, mem_chunk_rem, hfull, Cq.abs, hl]
+        have h2 : remSum q2.chunks = remSum q.chunks := by
+          have a := absChunks_length i1.valid
+          simp only [Cq.abs] at i2
+          rw [absChunks_same hs2, i2, absChunks_same hs1, hl] at a
+          exact a.symm
+        omega
+      · simp [Cq.abs, Chunk.content, hfull]
+
+/-! ## range duplication -/
+
+theorem copyRange_spec (w : World) (dst : Cq) (c : Chunk) (off n : Nat) :
+    SameFiles w (copyRange w dst c off n).1 ∧
+      (QV w dst → c.Valid w → off + n ≤ c.rem →
+        QV (copyRange w dst c off n).1 (copyRange w dst c off n).2 ∧
+        absChunks w (copyRange w dst c off n).2.chunks =
+          absChunks w dst.chunks ++ ((c.content w).drop off).take n) := by
+  cases c with
+  | mem d coff cap =>
+    simp only [copyRange]
+    obtain ⟨hs, hq⟩ := appendMem_spec w dst ((d.drop (coff + off)).take n)
+    refine ⟨hs, fun hd _ _ => ⟨hq hd, ?_⟩⟩
+    have := appendMem_abs w dst ((d.drop (coff + off)).take n) hd hs
+    simp only [Cq.abs] at this
+    rw [absChunks_same hs] at this
+    simpa [Chunk.content, Nat.add_comm] using this
+  | file fid coff len t fd =>
+    simp only [copyRange]
+    have hs : SameFiles w (if fd.isOpen = true then w.openFd fid else w) := by
+      split
+      · exact openFd_same w fid
+      · exact SameFiles.refl w
+    refine ⟨hs, fun hd hv hn => ⟨pushChunk_qv (hd.mono hs.grows) ?_ (by simp [Chunk.rem]), ?_⟩⟩
+    · simp only [Chunk.Valid, Chunk.rem] at hv hn ⊢
+      refine ⟨by rw [hs.nfiles]; exact hv.1, by omega, ?_⟩
+      rw [hs.sz]; omega
+    · simp only [Chunk.rem] at hn
+      rw [pushChunk_abs]
+      simp only [Chunk.content, List.drop_take, List.take_take, List.drop_drop]
+      congr 2
+      omega
+
+theorem rangeLoop_spec (w : World) (dst : Cq) (cs : List Chunk) (off len : Nat) :
+    SameFiles w (rangeLoop w dst cs off len).1 ∧
+      (QV w dst → ValidAll w cs →
+        QV (rangeLoop w dst cs off len).1 (rangeLoop w dst cs off len).2 ∧
+        absChunks w (rangeLoop w dst cs off len).2.chunks =
+          absChunks w dst.chunks ++ ((absChunks w cs).drop off).take len) := by
+  fun_induction rangeLoop w dst cs off len with
+  | case1 w dst off len => exact ⟨SameFiles.refl w, fun hd _ => ⟨hd, by simp⟩⟩
+  | case2 w dst c rest off => exact ⟨SameFiles.refl w, fun hd _ => ⟨hd, by simp⟩⟩
+  | case3 w dst c rest off len h0 hge ih =>
+    obtain ⟨hs, hi⟩ := ih
+    refine ⟨hs, fun hd hv => ?_⟩
+    obtain ⟨i1, i2⟩ := hi hd hv.tail
+    have hl := content_length hv.head
+    refine ⟨i1, ?_⟩
+    rw [i2, absChunks_cons, List.drop_append, hl, List.drop_of_length_le (l := c.content w) (by omega),
+      List.nil_append]
+  | case4 w dst c rest off len h0 hlt ih =>
+    obtain ⟨hs1, hc⟩ := copyRange_spec w dst c off (min (c.rem - off) len)
+    obtain ⟨hs2, hi⟩ := ih
+    refine ⟨hs1.trans hs2, fun hd hv => ?_⟩
+    obtain ⟨c1, c2⟩ := hc hd hv.head (by omega)
+    obtain ⟨i1, i2⟩ := hi c1 (hv.tail.mono hs1.grows)
+    have hl := content_length hv.head
+    refine ⟨i1, ?_⟩
+    simp only [absChunks_same hs1] at i2
+    rw [i2, c2, absChunks_cons, List.drop_zero, List.drop_append, List.take_append, List.length_drop, hl,
+      List.append_assoc]
+    have e0 : off - c.rem = 0 := by omega
+    rw [e0, List.drop_zero]
+    congr 1
+    by_cases hle : len ≤ c.rem - off
+    · rw [Nat.min_eq_right hle]
+      have : len - (c.rem - off) = 0 := by omega
+      simp [this]
+    · rw [Nat.min_eq_left (by omega)]
+      rw [List.take_of_length_le (l := (c.content w).drop off) (i := len) (by rw [List.length_drop, hl]; omega)]
+      rw [List.take_of_length_le (l := (c.content w).drop off) (i := c.rem - off) (by rw [List.length_drop, hl]; omega)]
+
+/-! ## cleanup -/
+
+theorem reset_spec (w : World) (q : Cq) :
+    SameFiles w (reset w q).1 ∧ QV (reset w q).1 (reset w q).2 ∧ (reset w q).2.chunks = [] ∧
+      (reset w q).2.bytesIn = 0 ∧ (reset w q).2.bytesOut = 0 :=
+  ⟨releaseAll_same w q.chunks, ⟨ValidAll.nil _, by simp [reset]⟩, rfl, rfl, rfl⟩
+
 end LtVerif.Cq
